@@ -361,9 +361,9 @@ class BandpathCount:
                 pass
             pos = [d for d in _norm_terms(r.path.pc)]
             unwound = True
-            for label, cond in r.interp.obligations:
+            for label, opc, cond in r.interp.obligations:
                 if label.startswith("unwinding"):
-                    hv, _ = check_valid(w, [c for c in hyps if not c.eq(cond)] + [d > 0 for d in pos], cond, timeout_ms=30000)
+                    hv, _ = check_valid(w, list(opc) + [d > 0 for d in pos], cond, timeout_ms=30000)
                     if hv != "proved":
                         unwound = False
             if not unwound:
